@@ -246,4 +246,53 @@ theorem runHistory_eq_cold (cache : NodeCache) (hc : cacheOk cache) (ops : List 
       simp only [runHistory, runCold]
       exact ih _ (fun e he => hc e (List.mem_filter.mp he).1)
 
+
+/-- the flags of `from_string`'s result obey (can_be_mutable, can_be_writeable) as computed from prefix and context -/
+theorem fromString_flags_of_ctx (deep : Bool) (u : Bytes) :
+    ((stripAlleged deep u).2.1 = false → (fromString deep u).isReadonly ≠ some false) ∧
+    ((stripAlleged deep u).1 = false → (fromString deep u).isMutable ≠ some true) := by
+  suffices key : ∀ c, fromString deep u = c →
+      (((stripAlleged deep u).2.1 = false → c.isReadonly ≠ some false) ∧
+       ((stripAlleged deep u).1 = false → c.isMutable ≠ some true)) from key _ rfl
+  intro c h
+  have mono := stripAlleged_mono deep u
+  simp only [fromString, fromStringWith] at h
+  cases hd : dispatch (stripAlleged deep u).2.2 with
+  | none => rw [hd] at h; subst h; simp [Cap.isReadonly, Cap.isMutable]
+  | some eb =>
+    obtain ⟨e, body⟩ := eb
+    obtain ⟨p, hmem, _⟩ := dispatch_inv _ _ _ hd
+    rw [hd] at h
+    cases e with
+    | file k need =>
+      obtain ⟨rfl, rfl⟩ := table_file p k need hmem
+      simp only at h
+      split at h
+      · rename_i hn
+        cases hi : initBodyWith spec k body with
+        | none => rw [hi] at h; subst h; simp [Cap.isReadonly, Cap.isMutable]
+        | some f =>
+          rw [hi] at h; subst h
+          obtain ⟨hkind, _, _⟩ := initBody_inv k body f hi
+          subst hkind
+          constructor
+          · intro hw; cases f <;> simp_all [needOk, fileNeed, FileCap.kind, Cap.isReadonly, FileCap.isReadonly]
+          · intro hm; cases f <;> simp_all [needOk, fileNeed, FileCap.kind, Cap.isMutable, FileCap.isMutable]
+      · subst h; simp [Cap.isReadonly, Cap.isMutable]
+    | dir k need =>
+      obtain ⟨rfl, rfl⟩ := table_dir p k need hmem
+      simp only at h
+      split at h
+      · rename_i hn
+        cases hi : initBodyWith spec k body with
+        | none => rw [hi] at h; subst h; simp [Cap.isReadonly, Cap.isMutable]
+        | some f =>
+          rw [hi] at h; subst h
+          constructor
+          · intro hw; cases k <;> simp_all [needOk, fileNeed, Cap.isReadonly, dirIsReadonly]
+          · intro hm; cases k <;> simp_all [needOk, fileNeed, Cap.isMutable, dirIsMutable]
+      · subst h; simp [Cap.isReadonly, Cap.isMutable]
+    | futureWriteable => simp only at h; split at h <;> (subst h; simp [Cap.isReadonly, Cap.isMutable])
+    | futureMutable => simp only at h; split at h <;> (subst h; simp [Cap.isReadonly, Cap.isMutable])
+
 end Tahoe.Uri
